@@ -17,6 +17,13 @@ pub mod c14;
 pub mod c27;
 pub mod c28;
 pub mod c32;
+pub mod insp;
+pub mod c29 {
+    pub use super::insp::{replay29 as replay, run29 as run};
+}
+pub mod c30 {
+    pub use super::insp::{replay30 as replay, run30 as run};
+}
 
 macro_rules! table {
     ($ctx:expr, $rp:expr, $( $id:literal => $m:ident ),* $(,)?) => {
@@ -46,6 +53,8 @@ pub fn dispatch(ctx: &Ctx, replay: Option<&str>) -> i32 {
         "C14" => c14,
         "C27" => c27,
         "C28" => c28,
+        "C29" => c29,
+        "C30" => c30,
         "C32" => c32,
     )
 }
